@@ -63,6 +63,13 @@ def gen_project(rng, locales, inherits, list_default):
                 data[l].append(["n1", {"k": "null"}])
             if any(name == "n1" for name, _ in data[l]) and (l == default or rng.random() < 0.8):
                 data[l].append(["r_n1", {"k": "tmpl", "segs": [{"s": "text", "v": "via "}, {"s": "fk", "ns": None, "path": ["n1"], "args": None}]}])
+    # a value that resolves to the empty string is still a value: the locale that writes it (and its heirs) read "", not what is further up
+    for l in locales:
+        data[l].append(["e1", {"k": "lit", "ty": "str", "v": ""}])
+        if l == default:
+            data[l].append(["re1", tagged(l, ("re1",))])
+        elif rng.random() < 0.6:
+            data[l].append(["re1", {"k": "tmpl", "segs": [{"s": "fk", "ns": None, "path": ["e1"], "args": None}]}])
     for g, leaves in groups.items():
         for l in locales:
             r = rng.random()
@@ -152,7 +159,12 @@ def check(res, project, out, sig_extra=""):
                 except Exception as e:  # noqa
                     text = "<<%s>>" % e
             want = "⟨%s:%s⟩" % (eff, ".".join(path)) + (" X" if path == ("k4",) else "")
-            if path[0] == "n1" or path[0] == "r_n1":
+            if path[0] == "e1":
+                want = ""
+            elif path[0] == "re1":
+                want = ("⟨%s:re1⟩" % eff) if eff == default else ""
+                res.count("reference-resolving-to-the-empty-string")
+            elif path[0] == "n1" or path[0] == "r_n1":
                 eff_n = eff if path[0] == "n1" else model.effective_locale(project, None, eff, ("n1",))
                 want = ("via " if path[0] == "r_n1" else "") + "⟨%s:n1⟩ ⟨%s:k1⟩" % (eff_n, model.effective_locale(project, None, eff_n, ("k1",)))
                 res.count("nested-reference-in-%s-value" % ("own" if eff_n == eff else "borrowed"))
